@@ -107,7 +107,7 @@ type FFItem struct {
 	From   int    `json:"from"`
 	To     int    `json:"to"`
 	Stride int    `json:"stride"`
-	N      int    `json:"n,omitempty"` // 3: the three-validator variant of the scenario (default 4)
+	N      int    `json:"n,omitempty"`      // 3: the three-validator variant of the scenario (default 4)
 	Steps  int    `json:"steps,omitempty"`  // length of the base history after the join request (default 48)
 	Server int    `json:"server,omitempty"` // which validator's response is the base (default 1)
 }
@@ -233,6 +233,13 @@ func init() {
 			ab := appDigest(t)
 			rp := map[string]interface{}{"target": it.Target, "level": it.Level, "substitution": label}
 			okPred, why := ffPredicate(&msg.Block, &msg.Frame)
+			if prop == "C12" && okPred && base != nil && bytes.Equal(mon.JSONDigest(&msg.Block.Body), mon.JSONDigest(&base.Block.Body)) &&
+				!bytes.Equal(mon.JSONDigest(&msg.Frame), mon.JSONDigest(&base.Frame)) {
+				// the repository's own Frame.Hash is not taken on trust: the block body is the served one, so the only
+				// frame its frame hash commits to is the served frame; any frame that differs from it (in the harness's
+				// own encoding of every exported field) is a tampered one, whatever Frame.Hash says
+				okPred, why = false, "the frame differs from the one the (unchanged) signed block body commits to, in a part the frame hash does not notice"
+			}
 			trusted := false
 			if prop == "C14" {
 				ks := known(c, it.Target)
